@@ -7,7 +7,8 @@ from gen import Rng
 
 MEXTRACT = os.path.join(VERIF, ".build", "mispextract")
 MMODEL = os.path.join(MEXTRACT, "mispmodel")
-PINNED = ["C16_misp_run_selects_an_independent_set", "C16_misp_every_independent_set_is_a_run",
+PINNED = ["C16_misp_dp_optimum_is_the_independent_set_optimum", "C16_misp_brute_force_is_an_upper_bound", "C16_misp_brute_force_is_attained",
+          "C16_misp_run_selects_an_independent_set", "C16_misp_every_independent_set_is_a_run",
           "C16_misp_every_independent_set_is_a_run_when_the_diagram_stops", "C16_misp_run_sound_with_completion", "C16_misp_run_complete_with_rest",
           "C16_misp_merge_covers_members", "C16_misp_cover_is_a_simulation", "C16_misp_cover_keeps_completions", "C16_misp_relax_not_below_cost",
           "C16_misp_rough_bound_admissible", "C16_misp_rough_bound_monotone", "C16_misp_rough_bound_covers_runs_of_covered_states",
